@@ -509,6 +509,26 @@ class AMDeco(AM):
     __aexit__ = _alogged(AM.__aexit__)
 
 
+class MDual(M):
+    """a manager that supports both protocols, entered here through the plain `with` statement"""
+
+    async def __aenter__(self):
+        raise AssertionError("harness: the async protocol of a manager entered with a plain `with` was used")
+
+    async def __aexit__(self, *a):
+        raise AssertionError("harness: the async protocol of a manager entered with a plain `with` was used")
+
+
+class AMDual(AM):
+    """a manager that supports both protocols, entered here through `async with`"""
+
+    def __enter__(self):
+        raise AssertionError("harness: the sync protocol of a manager entered with `async with` was used")
+
+    def __exit__(self, *a):
+        raise AssertionError("harness: the sync protocol of a manager entered with `async with` was used")
+
+
 def noop():
     S.events.append(("noop",))
 
@@ -628,6 +648,8 @@ class R:
         cls = "AM" if is_async else "M"
         if S.allow_alias and it.get("exitname") in ("Alias", "Deco"):
             cls += it["exitname"]
+        elif it.get("exitname") == "Dual":
+            cls += "Dual"
         return cls, args, tgt
 
     def render_with(self, s, ind):
@@ -915,7 +937,7 @@ def compile_program(prog):
     src = r.render()
     fname = "<g1-prog>"
     linecache.cache[fname] = (len(src), None, src.splitlines(True), fname)
-    ns = {"M": M, "AM": AM, "MAlias": MAlias, "AMAlias": AMAlias, "MDeco": MDeco, "AMDeco": AMDeco, "E1": E1, "E2": E2, "NS": NS, "trap": trap, "probe": probe, "noop": noop,
+    ns = {"M": M, "AM": AM, "MAlias": MAlias, "AMAlias": AMAlias, "MDeco": MDeco, "AMDeco": AMDeco, "MDual": MDual, "AMDual": AMDual, "E1": E1, "E2": E2, "NS": NS, "trap": trap, "probe": probe, "noop": noop,
           "FR": S.fr, "sys": sys, "tick": tick, "S": S, "kwget": kwget, "pick": pick, "GV": None,
           "__name__": "g1prog"}
     with warnings.catch_warnings():
